@@ -132,7 +132,7 @@ pub fn sys_write<S: Src>(s: &mut S, len_c: u32, arg_c: u32) {
     }
     let ok = r.is_ok();
     witness!(when: cap >= 4, ok && len >= 4 && data[0] == 0xf0, "four-byte UTF-8 character written");
-    witness!(when: cap >= 3, ok && len == 3 && data[0] == b'\\' && data[1] == b'\n' && data[2] == 0, "backslash, newline, NUL written");
+    witness!(when: cap >= 3, ok && len >= 3 && data[0] == b'\\' && data[1] == b'\n' && data[2] == 0, "backslash, newline, NUL written");
     witness!(when: len_c == SYM, ok && len == 0, "zero-length write");
     witness!(ok && buf >= 0x400000 && buf < 0x600000, "buffer in DRAM");
     witness!(when: cap >= 1, ok && len >= 1 && buf >= 0xffbf20, "buffer in on-chip RAM");
